@@ -62,18 +62,21 @@ def validate(d):
             probs.append(f"non-string id {i!r}")
             continue
         if n["k"] == "var":
-            s = ("var", tuple(n["b"]))
+            s = ("var", tuple(n["b"]), n["cls"])
         else:
             chids = [c["id"] for c in n["ch"]]
             if len(set(map(str, chids))) != len(chids):
                 probs.append(f"duplicate child under {i}")
             if not chids:
                 probs.append(f"empty compound {i}")
-            # one *definition* per id: sign, value, children, own bounds.  Class, generated-id flag, prio and
-            # default may differ between identical sub-propositions (e.g. the complement node of a defaulted
-            # cc.Any next to a plain Any over the same items): which copy flatten() keeps is decided by
-            # insertion order, not by the hash seed, so such models are deterministic and stay in scope
-            s = ("cmp", n["sign"], n["value"], tuple(sorted(map(str, chids))), tuple(n["b"]))
+            # one *definition and class* per id: sign, value, children, own bounds, class.  The class matters because
+            # AtLeast.__eq__ compares types: two same-id nodes of different classes are *not* de-duplicated by
+            # flatten(), and their relative order in its result then depends on set iteration order, i.e. on
+            # PYTHONHASHSEED (seen: default_prios -2 vs -1 for `pg.Any(h)` next to `AtLeast(1,[h])` in two
+            # interpreters).  prio / default / generated-id flag may differ between same-class copies (e.g. the
+            # complement node of a defaulted cc.Any next to a plain Any over the same items): those are equal, the
+            # first inserted copy wins, which is decided by construction order, not by the hash seed.
+            s = ("cmp", n["sign"], n["value"], tuple(sorted(map(str, chids))), tuple(n["b"]), n["cls"])
             graph.setdefault(i, set()).update(chids)
         if i in sig and sig[i] != s:
             probs.append(f"ambivalent definitions of {i}")
